@@ -147,6 +147,19 @@ def evaluate(sub, case, res, want_samples=3):
     except HarnessError:
         raise
     except Exception as e:  # pylint: disable=broad-except
+        from pv.model import BadDefinition
+
+        if isinstance(e, BadDefinition):
+            # the repository's definition table is malformed: a verdict (C03/C10), not a harness fault
+            bucket = f"{sub.name}|definition-malformed"
+            ent = res.failures.get(bucket)
+            if ent is None:
+                res.failures[bucket] = {"case": case, "msg": str(e)[:2000], "count": 1}
+            else:
+                ent["count"] += 1
+            res.evals += 1
+            res.cases += 1
+            return bucket
         if innermost_is_lib(e):
             bucket = f"{sub.name}|lib-raised:{type(e).__name__}@{lib_frame(e)}"
             ent = res.failures.get(bucket)
